@@ -318,7 +318,7 @@ func c14Deviations(r *mon.Run, c *c14comp, kss *kssState, t *kssTranscript) {
 				q.UserChallengeInput = append(q.UserChallengeInput[:i:i], q.UserChallengeInput[i+1:]...)
 			}},
 			dev{fmt.Sprintf("entry[%d] duplicated", i), func(q *gabi.KeyshareResponseRequest[string], _ *gabi.KeyshareCommitmentRequest, _ map[string]*gabikeys.PublicKey) {
-				q.UserChallengeInput = append(q.UserChallengeInput, cloneInput(q.UserChallengeInput[i : i+1])...)
+				q.UserChallengeInput = append(q.UserChallengeInput, cloneInput(q.UserChallengeInput[i:i+1])...)
 			}},
 			dev{fmt.Sprintf("othercomms[%d] appended", i), func(q *gabi.KeyshareResponseRequest[string], _ *gabi.KeyshareCommitmentRequest, _ map[string]*gabikeys.PublicKey) {
 				q.UserChallengeInput[i].OtherCommitments = append(q.UserChallengeInput[i].OtherCommitments, bi(7))
